@@ -1,9 +1,9 @@
 #!/bin/bash
-# verify_seed.sh <ID> <worktree> <demo-pkg> <demo-run-regex>
+# verify_seed.sh <ID> <worktree> <demo-pkg> <demo-run-regex> [extra go test flags for the demo, e.g. -race]
 # Confirms an independently written property-breaking change: baseline tests pass with it, the
 # demonstration fails with it and passes without it.  Then stores it under /verif/seeded/<ID>/.
 set -u
-ID=$1; WT=$2; PKG=$3; RUN=$4
+ID=$1; WT=$2; PKG=$3; RUN=$4; EXTRA=${5:-}
 export GOFLAGS=-mod=mod GOPROXY=off GOSUMDB=off GOTOOLCHAIN=local
 cd "$WT" || exit 2
 git stash -q -- go.mod go.sum 2>/dev/null
@@ -19,11 +19,11 @@ BASE=${PIPESTATUS[0]}
 echo "baseline exit=$BASE"
 for g in "${HIDDEN[@]}"; do mv "$g.hidden" "$g"; done
 echo "== demo with change (must fail)"
-go test -vet=off -count=1 -ldflags=-checklinkname=0 -run "$RUN" "$PKG" > /tmp/seed_demo_with.txt 2>&1; W=$?
+go test -vet=off -count=1 -ldflags=-checklinkname=0 $EXTRA -run "$RUN" "$PKG" > /tmp/seed_demo_with.txt 2>&1; W=$?
 tail -5 /tmp/seed_demo_with.txt
 git apply -R SEED/patch.diff || { echo "cannot revert patch"; exit 2; }
 echo "== demo without change (must pass)"
-go test -vet=off -count=1 -ldflags=-checklinkname=0 -run "$RUN" "$PKG" > /tmp/seed_demo_without.txt 2>&1; WO=$?
+go test -vet=off -count=1 -ldflags=-checklinkname=0 $EXTRA -run "$RUN" "$PKG" > /tmp/seed_demo_without.txt 2>&1; WO=$?
 tail -3 /tmp/seed_demo_without.txt
 git apply SEED/patch.diff
 git checkout -q -- go.mod go.sum 2>/dev/null
